@@ -239,6 +239,10 @@ func (t *tr) binary(x *ast.BinaryExpr) string {
 		if w > 0 {
 			return fmt.Sprintf("(%s ^^^ %s)", l, r)
 		}
+	case token.AND_NOT:
+		if w > 0 {
+			return fmt.Sprintf("(%s &&& ~~~%s)", l, r)
+		}
 	case token.SHL, token.SHR:
 		if w <= 0 {
 			t.fail(x, "shift of a non-fixed-width integer")
@@ -460,7 +464,7 @@ func (t *tr) stmts(list []ast.Stmt, k string, results []string, ind string) stri
 				// op=
 				op := map[token.Token]token.Token{
 					token.ADD_ASSIGN: token.ADD, token.SUB_ASSIGN: token.SUB, token.MUL_ASSIGN: token.MUL,
-					token.AND_ASSIGN: token.AND, token.OR_ASSIGN: token.OR, token.SHL_ASSIGN: token.SHL, token.SHR_ASSIGN: token.SHR,
+					token.AND_ASSIGN: token.AND, token.AND_NOT_ASSIGN: token.AND_NOT, token.OR_ASSIGN: token.OR, token.SHL_ASSIGN: token.SHL, token.SHR_ASSIGN: token.SHR,
 				}[x.Tok]
 				if op == token.ILLEGAL {
 					t.fail(x, "unsupported assignment operator %s", x.Tok)
